@@ -505,7 +505,7 @@ def _run_track_auto(sh, res):
 # ----------------------------------------------------------------------------- protocol
 def plan(tier, seed):
     shards = []
-    depth1 = 4 if tier == "quick" else 6
+    depth1 = 4 if tier == "quick" else 5
     depth2 = 2 if tier == "quick" else 3
     for i in range(len(ADD)):
         shards.append({"part": "seq1", "init": i, "depth": depth1})
